@@ -293,6 +293,56 @@ def minimise(variant, text, want, tmp, budget_execs=400, budget_s=60):
                 new.append(line)
         if changed and still_fails([join_plan(new, ops)])[0]:
             head = new
+    # argument shrinking: byte-string arguments (values first) are replaced by the empty string or by their first half
+    SPEC = re.compile(r"^(x[0-9a-f]*|c\d+x[0-9a-f]{2}|p\d+s\d+)(\+(x[0-9a-f]*|c\d+x[0-9a-f]{2}|p\d+s\d+))*$")
+
+    def shorter(tok):
+        out = ["x"]
+        if tok.startswith("x") and "+" not in tok and len(tok) > 5:
+            h = tok[1:]
+            out.append("x" + h[:(len(h) // 4) * 2])
+        elif tok.startswith(("c", "p")) and "+" not in tok:
+            m = re.match(r"([cp])(\d+)(.*)", tok)
+            if m and int(m.group(2)) > 2:
+                out.append("%s%d%s" % (m.group(1), int(m.group(2)) // 2, m.group(3)))
+        return [o for o in out if o != tok]
+
+    for round_ in range(2):
+        if time.time() - t0 > budget_s or execs[0] > budget_execs:
+            break
+        sites = []
+        for li, line in enumerate(ops):
+            toks = line.split(" ")
+            for ai in range(len(toks) - 1, 1, -1):
+                if SPEC.match(toks[ai]) and len(toks[ai]) > 1:
+                    for cand in shorter(toks[ai])[:1 if round_ == 0 else 2][-1:]:
+                        sites.append((li, ai, cand))
+        if not sites:
+            break
+        sites = sites[:64]
+        cands = []
+        for li, ai, cand in sites:
+            toks = ops[li].split(" ")
+            toks[ai] = cand
+            cands.append(join_plan(head, ops[:li] + [" ".join(toks)] + ops[li + 1:]))
+        ok = still_fails(cands)
+        good = [st for st, o in zip(sites, ok) if o]
+        if not good:
+            continue
+        trial = list(ops)
+        for li, ai, cand in good:
+            toks = trial[li].split(" ")
+            toks[ai] = cand
+            trial[li] = " ".join(toks)
+        if still_fails([join_plan(head, trial)])[0]:
+            ops = trial
+        else:
+            for li, ai, cand in good[:12]:
+                toks = ops[li].split(" ")
+                toks[ai] = cand
+                t2 = ops[:li] + [" ".join(toks)] + ops[li + 1:]
+                if still_fails([join_plan(head, t2)])[0]:
+                    ops = t2
     return join_plan(head, ops), execs[0]
 
 
